@@ -58,6 +58,8 @@ func handle(line string) string {
 			return "BADREQ"
 		}
 		return lexRun(string(b), f[1] == "n")
+	case "TREE":
+		return treeServe(line)
 	case "SPEC":
 		if len(f) != 2 {
 			return "BADREQ"
